@@ -96,7 +96,7 @@ def run_project(case):
         out = d / 'out'
         env = dict(os.environ)
         cmd = [sys.executable, '-m', 'pydoctor', '--project-name=proj', '--html-output=%s' % out,
-               '--docformat=%s' % case['docformat'], '-q'] + [str(p) for p in files]
+               '--docformat=%s' % case['docformat'], '-q'] + list(case.get('args', [])) + [str(p) for p in files]
         try:
             pr = subprocess.run(cmd, stdout=subprocess.PIPE, stderr=subprocess.PIPE, timeout=240, env=env, cwd=str(d))
         except subprocess.TimeoutExpired:
@@ -109,8 +109,10 @@ def run_project(case):
             return {'what': 'uncaught exception traceback in output', 'case': case, 'observed': se[-1500:]}, pr.returncode
         for name, text in case['files']:
             modname = name[:-3]
+            if ('--privacy=HIDDEN:%s' % modname) in case.get('args', []):
+                continue      # hidden modules have no page
             if parses(text):
-                if not (out / (modname + '.html')).exists() and not (len(case['files']) == 1 and (out / 'index.html').exists()):
+                if modname.isidentifier() and not (out / (modname + '.html')).exists() and not (len(case['files']) == 1 and (out / 'index.html').exists()):
                     return {'what': 'parseable module %s has no page' % name, 'case': case, 'observed': so[-800:]}, pr.returncode
             else:
                 if name not in so and name not in se:
@@ -153,6 +155,16 @@ def main():
         cases.append({'files': files, 'docformat': rng.choice(DOCFORMATS)})
     for df in DOCFORMATS:
         cases.append(torture_project(df))
+    # boundary projects: root names that coincide with generated pages, a lone empty module, deep nesting
+    for name in ('index.py', 'moduleIndex.py', 'classIndex.py', 'nameIndex.py', 'undoccedSummary.py', 'all-documents.py'):
+        cases.append({'files': [[name, 'class K:\n    """doc"""\n']], 'docformat': 'epytext', 'single_root_named_like_page': True})
+    cases.append({'files': [['empty.py', '']], 'docformat': 'epytext'})
+    # every object hidden (nothing to index)
+    cases.append({'files': [['solo.py', 'class K:\n    """doc"""\n']], 'docformat': 'epytext', 'args': ['--privacy=HIDDEN:solo'],
+                  'tag': 'all_hidden'})
+    cases.append({'files': [['solo.py', 'class K:\n    """doc"""\n'], ['other.py', 'x = 1\n']], 'docformat': 'epytext',
+                  'args': ['--privacy=HIDDEN:solo']})
+    cases.append({'files': [['deep.py', 'x = ' + '[' * 60 + ']' * 60 + '\n' + 'y = ' + '(' * 150 + '1' + ')' * 150 + '\n']], 'docformat': 'epytext'})
     failures = []
     hist = {}
     with ThreadPoolExecutor(max_workers=req.get('jobs', 8)) as ex:
